@@ -13,6 +13,7 @@ func init() {
 		Run: runC01,
 		Explanation: "Decides the local facts whose conjunction is the textbook argument for at-least-once delivery through Router stages connected by GoChannel topics (the composition itself is a pen-and-paper argument in DESIGN §3, not mechanised): a stage Acks only behind chain-error==nil and publish-error==nil, every failure exit (handler error, publish error, recovered panic of handler or publisher) Nacks, outputs of a failed attempt are not published (the C02 obligations, re-decided here); " +
 			"the broker re-sends a fresh copy after every Nack and stops only after an Ack or when the subscription is closed, and owns the subscription until settlement (C04.O2, C05.O1); nothing is invented: every value sent to a subscriber is Copy() of the deliver function's message, and every message handed to the deliver function is a copy of a message given to Publish or an element of the persisted log, which is only ever extended with such copies. " +
+			"The router's registration and life-cycle obligations (C09, C10) are decided here too: a stage whose handler is dropped from the router or never started consumes nothing, and its input topic loses what was published to it. " +
 			"The obligations of the Retry middleware (C12) and of the simple middlewares (C19) are decided here too, because a library middleware that turns a failed attempt into a success or drops outputs makes a stage Ack a message that never reached the next topic. Not decided: that redelivery eventually happens (scheduler), third-party Pub/Subs, the fault-free suffix assumption.",
 		Assumptions: commonAssumptions,
 	})
@@ -45,6 +46,8 @@ func runC01(c *Check) {
 	// InstantAck, or a deduplicating decorator applied twice, acks what was never published
 	if r2 := c.routerRoles2(P + ".M09"); r2 != nil {
 		c09All(c, P+".M09", r2)
+		// a stage that is registered but never started, or dropped from the router, consumes nothing: its input is lost
+		c10Lifecycle(c, P+".M10", r2)
 	}
 	// O5 NO-INVENTION: provenance of every message handed to the deliver function
 	var fanMsg *ssa.Parameter
